@@ -662,7 +662,10 @@ def c_subst0(e, env):
     if k == 'member':
         return ('member', c_subst0(e[1], env), e[2])
     if k == 'un':
-        return ('un', e[1], c_subst0(e[2], env))
+        x = c_subst0(e[2], env)
+        if e[1] == '~' and x[0] == 'num':
+            return ('un', '-', ('num', x[1] + 1))       # ~3 == -4 (mask spelling)
+        return ('un', e[1], x)
     if k == 'cast':
         return c_subst0(e[1], env)          # integer / pointer casts are transparent for what is extracted here
     if k == 'bin':
